@@ -929,12 +929,15 @@ assume func (w io.Writer) Write(q []byte) (n int, err error)
   modifies wcount, wlast, wlen, wn, werr
   ensures wcount == old(wcount) + 1 && sameView(wlast, q) && wlen == len(q) && wn == n && werr == err
 
+-- the F-variants hand their text to the destination through its Write method, once, whatever the destination is: a
+-- destination that is itself a printer (a Format method calling redact.Fprintf on its fmt.State) then treats it as
+-- unsafe data under the override in force (C06), like any other writer's input
 func Fprintf(w io.Writer, format string, a ...interface{}) (n int, err error)
   public format
   inline
   may-panic
   modifies alloc, memU, wcount, wlast, wlen, wn, werr, fdp, fdk, fdar, fdao, fdal, fdf, fdfl, fdw
-  ensures [C16] wcount == old(wcount) + 1 && n == wn && err == werr
+  ensures [C06,C16] wcount == old(wcount) + 1 && n == wn && err == werr
   ensures [C01] WF(wlast, wlen, false)
   ensures [C03] LS(wlast, wlen)
   ghost fdp = p.gdp after "p.doPrintf(format, a)"
@@ -969,7 +972,7 @@ func Fprint(w io.Writer, a ...interface{}) (n int, err error)
   inline
   may-panic
   modifies alloc, memU, wcount, wlast, wlen, wn, werr, fdp, fdk, fdar, fdao, fdal, fdf, fdfl, fdw
-  ensures [C16] wcount == old(wcount) + 1 && n == wn && err == werr
+  ensures [C06,C16] wcount == old(wcount) + 1 && n == wn && err == werr
   ensures [C01] WF(wlast, wlen, false)
   ensures [C03] LS(wlast, wlen)
   ghost fdp = p.gdp after "p.doPrint(a)"
@@ -994,7 +997,7 @@ func Sprint(a ...interface{}) (s m.RedactableString)
 func Fprintln(w io.Writer, a ...interface{}) (n int, err error)
   may-panic
   modifies alloc, memU, wcount, wlast, wlen, wn, werr, fdp, fdk, fdar, fdao, fdal, fdf, fdfl, fdw
-  ensures [C16] wcount == old(wcount) + 1 && n == wn && err == werr
+  ensures [C06,C16] wcount == old(wcount) + 1 && n == wn && err == werr
   ensures [C01] WF(wlast, wlen, false)
   ensures [C03] LS(wlast, wlen)
   ghost fdp = p.gdp after "p.doPrintln(a)"
